@@ -162,7 +162,9 @@ type Question struct {
 	Class uint16
 }
 
-func (q *Question) String() string { return fmt.Sprintf("{%s type=%d class=%d}", q.Name, q.Type, q.Class) }
+func (q *Question) String() string {
+	return fmt.Sprintf("{%s type=%d class=%d}", q.Name, q.Type, q.Class)
+}
 
 const (
 	BitQR = 1 << 15
